@@ -83,7 +83,10 @@ class UnsignedN(struct.Struct):
         return super().unpack(buffer + b'\x00' * (super().size - self.size))
 
     def pack(self, *v):
-        return super().pack(*v)[:self.size]
+        data = super().pack(*v)
+        if not 0 <= v[0] < (1 << self.width):
+            raise struct.error(f"argument out of range for {self.width}-bit unsigned integer")
+        return data[:self.size]
 
     @property
     def size(self) -> int:
@@ -120,7 +123,10 @@ class IntegerN(struct.Struct):
         )
 
     def pack(self, *v):
-        return super().pack(*v)[:self.size]
+        data = super().pack(*v)
+        if not -(1 << (self.width - 1)) <= v[0] < (1 << (self.width - 1)):
+            raise struct.error(f"argument out of range for {self.width}-bit signed integer")
+        return data[:self.size]
 
     @property
     def size(self) -> int:
